@@ -114,6 +114,9 @@ pub async fn spawn_process<P: Process>(
             tracing::error!("Failed to propagate exit signals for {}: {}", pid, e);
         }
 
+        #[cfg(edp_rs_verif)]
+        edp_client::verif::point("exit.before_registry_remove").await;
+
         registry.remove(&pid).await;
     });
 
@@ -127,6 +130,8 @@ async fn propagate_exit_signals(
 ) -> Result<()> {
     let links = handle.get_links().await;
     for linked_pid in links {
+        #[cfg(edp_rs_verif)]
+        edp_client::verif::point("exit.before_link_notice").await;
         if let Some(linked_handle) = registry.get(&linked_pid).await {
             let _ = linked_handle
                 .send(Message::Exit {
@@ -139,6 +144,8 @@ async fn propagate_exit_signals(
 
     let monitors = handle.get_monitors().await;
     for (monitoring_pid, reference) in monitors {
+        #[cfg(edp_rs_verif)]
+        edp_client::verif::point("exit.before_monitor_notice").await;
         if let Some(monitoring_handle) = registry.get(&monitoring_pid).await {
             let _ = monitoring_handle
                 .send(Message::MonitorExit {
